@@ -223,6 +223,8 @@ def write_evidence(prop, tier, seed, ev, wall, nviol, known_lines, inconclusive=
         cov["extra"] = ev["extra"]
     if inconclusive:
         cov["inconclusive"] = inconclusive
+    if os.environ.get("VERIF_BUDGET", "1") not in ("1", "1.0", ""):
+        cov["budget_scale"] = float(os.environ["VERIF_BUDGET"])  # development knob: case counts were scaled by this factor
     doc = dict(property_id=prop, tier=tier, seed=int(seed), level="exploration", coverage=cov,
                assumptions=meta.get("assumptions", []), wall_s=round(wall, 2), violations=int(nviol))
     evdir = os.environ.get("VERIF_EVIDENCE_DIR") or os.path.join(ROOT, "evidence")
